@@ -104,7 +104,13 @@ def run(ctx, rep, tier):
         for i, x in enumerate(pool if tier != "quick" else pool[::2]):
             y = pool[(i + 1) % len(pool)]
             directed += [[x, x, x], [x, x, y, x], [x, y, x, y, x]]
-    seqs = directed + seqs
+    # many resources: every request of the vocabulary in one expression (matchers first, printers first, interleaved), and generated
+    # families of distinct names/files, so that generated indices pass 9, 15 and (thorough) 31, 127
+    inter = [x for pair in itertools.zip_longest(MATCHERS, PRINTERS) for x in pair if x]
+    many = [MATCHERS + PRINTERS, PRINTERS + MATCHERS, inter]
+    for nm, nf in ([(6, 12), (18, 3)] if tier == "quick" else [(6, 12), (18, 3), (20, 40), (70, 70)]):
+        many.append(["-name n%d" % i for i in range(nm)] + ["-fprint F%d" % i for i in range(nf)] + ["-name n0", "-fprint F0", "-fprint F%d" % (nf - 1)])
+    seqs = directed + many + seqs
     samples, n = [], 0
     t0 = time.process_time()
     budget = 220 if tier == "quick" else 3000
